@@ -308,6 +308,8 @@ fn tag_alpha(n: usize) -> Vec<Step> {
     let all = vec![
         Step::Tag("k".into(), "v".into()),
         Step::TagValue("b".into()),
+        // a bare tag with an empty value (e.g. built from an empty configuration string)
+        Step::TagValue("".into()),
         Step::Tag("é".into(), "ü".into()),
     ];
     all[..n].to_vec()
@@ -345,7 +347,7 @@ pub fn run_c01(spec: &crate::Spec) -> Report {
     let tags_alpha: Vec<Step> = if dirty {
         vec![Step::Tag("t:1".into(), "v,2".into()), Step::TagValue("#b|".into())]
     } else {
-        tag_alpha(if thorough { 3 } else { 2 })
+        tag_alpha(if thorough { 4 } else { 3 })
     };
     let tag_lists = sequences(&tags_alpha, if thorough { 3 } else { 2 });
     let rates: Vec<Option<f64>> = if thorough { vec![None, Some(0.5), Some(1.0), Some(1e-7), Some(0.0)] } else { vec![None, Some(0.5), Some(1.0), Some(1e-7)] };
@@ -409,9 +411,12 @@ pub fn run_c04(spec: &crate::Spec) -> Report {
     let mut rep = Report::new(&spec.raw);
     let thorough = spec.str("tier", "quick") == "thorough";
     let row = &ROWS[spec.usize("row", 0)];
-    let dtags: Vec<(Option<String>, String)> = vec![(Some("dk".into()), "dv".into()), (None, "db".into()), (Some("dz".into()), "".into())];
-    let dlists = sequences(&dtags[..if thorough { 3 } else { 2 }], if thorough { 3 } else { 2 });
-    let tag_lists = sequences(&tag_alpha(if thorough { 3 } else { 2 }), 2);
+    let dtags: Vec<(Option<String>, String)> = vec![(Some("dk".into()), "dv".into()), (None, "db".into()), (None, "".into()), (Some("dz".into()), "".into())];
+    let dlists = sequences(&dtags[..if thorough { 4 } else { 3 }], if thorough { 3 } else { 2 });
+    // per-call tags, one of which reuses the key of a default tag with another value
+    let mut call_tags = tag_alpha(if thorough { 4 } else { 3 });
+    call_tags.push(Step::Tag("dk".into(), "pv".into()));
+    let tag_lists = sequences(&call_tags, 2);
     let vals = values_for(row.vt, false);
     let val = vals.iter().find(|v| reffmt::values(row, v).is_ok()).unwrap().clone();
     let packed = vals.iter().rev().find(|v| reffmt::values(row, v).is_ok()).unwrap().clone();
